@@ -487,7 +487,7 @@ def _correspondence(ctx, scratch, runner):
         for hist in ([ev], ["pending", ev]) if (ev in B.EVENTS or not ctx.quick) else ([ev],):
             cid += 1
             cases.append(gen_worker_case(ctx.rng, cid, wd(cid), None, hist, 0.0))
-    for _ in range(ctx.pick(25, 400)):
+    for _ in range(ctx.pick(15, 400)):
         cid += 1
         cases.append(gen_worker_case(ctx.rng, cid, wd(cid)))
     for c in cases:
